@@ -496,6 +496,20 @@ Proof.
   apply bytes_eqb_eq in E. contradiction.
 Qed.
 
+(* proxied mode: the first message after the reply decides, whatever follows *)
+Lemma proxy_first_hello_decides id b rep g rest :
+  proxy_attempt_stream id b rep (g :: rest) = proxy_attempt id b rep g.
+Proof. reflexivity. Qed.
+
+Lemma proxy_wrong_first_hello_refused id b rep g rest :
+  hello_matches id g = false ->
+  exists e, proxy_attempt_stream id b rep (g :: rest) = mkOut (Failed e) [b].
+Proof.
+  intro M. cbn [proxy_attempt_stream]. unfold proxy_attempt.
+  destruct (proxy_request id rep g) as [e|] eqn:E; [eauto|].
+  apply proxy_request_sound in E as [_ E]. congruence.
+Qed.
+
 Lemma proxy_attempt_only_matching id b rep hello p :
   o_res (proxy_attempt id b rep hello) = Returned p ->
   p = b /\ (exists echo, rep = PrOk echo) /\ hello_matches id hello = true /\ o_closed (proxy_attempt id b rep hello) = [].
